@@ -82,6 +82,8 @@ def _state(rng, kind, shape, lead, real_t):
 
 def run_shard(sh, rec):
     seed, tier = sh["seed"], sh["tier"]
+    seen = {}
+    sh_base = util.rng_for(seed, "C01", "shard-shape", sh["name"]).integers(0, 64)
     for c in sh["cfgs"]:
         rng = util.rng_for(seed, "C01", c["kind"], c["cid"], c["rep"])
         real_t = util.DT[c["dtype"]]
@@ -91,9 +93,15 @@ def run_shard(sh, rec):
             lo = 2 * max(c.get("width", 2), 2) + 3
             shape = util.shape2d(rng, max(lo, 8), 40) if d == 2 else util.shape3d(rng, max(lo, 8), 18)
         else:
+            # consecutive configurations of one worker process share a grid shape but differ in domain length, and the
+            # shape changes every second configuration while domain lengths repeat: anything cached across simulator
+            # objects under an incomplete key (shape only, or spacing only) is then hit within one process
             pool = POOL2 if d == 2 else POOL3
-            shape = pool[int(rng.integers(len(pool)))]
-        xr = XR[int(rng.integers(len(XR)))]
+            cnt = seen.get(d, 0)
+            seen[d] = cnt + 1
+            shape = pool[(int(sh_base) + cnt // 2) % len(pool)]
+            xr_idx = cnt % len(XR)
+        xr = XR[int(rng.integers(len(XR)))] if (tier == "thorough" and c["rep"] > 0) else XR[xr_idx]
         nu = float(10 ** rng.uniform(-4, 0))
         rho = float(10 ** rng.uniform(-2, 2))
         t0 = float(rng.choice([0.0, 0.25, 17.5]))
